@@ -43,7 +43,7 @@ def retriesOf (i : Json) (n : String) : Nat × Nat :=
   let t := (((jField? i "graph").bind fun g => jField? g "tasks").bind fun t => jField? t n).getD Json.null
   ((jNatField? t "exec_retries").getD 0, (jNatField? t "sub_retries").getD 0)
 
-def isFailMsg (m : String) : Bool := m == "failed" || m.startsWith "failed/"
+def isFailMsg (m : String) : Bool := m == "failed" || m.startsWith "failed/" || m.startsWith "aborted/"
 def isSubFailMsg (m : String) : Bool := m == "submission failed" || m == "submit-failed"
 
 /-- one logged `process_message` call on a pooled (non-transient) proxy -/
